@@ -17,7 +17,7 @@ def _c():
 
 
 def is_sym(x) -> bool:
-    return isinstance(x, SymInt | SymBool | SymStr)
+    return isinstance(x, SymInt | SymBool | SymStr | SymChars)
 
 
 def to_z3_int(x):
@@ -342,6 +342,23 @@ class SymStr:
     def sym_len(self):
         return wrap_int(z3.Length(self.z))
 
+    def __getitem__(self, i):
+        if isinstance(i, slice):
+            if i.step not in (None, 1):
+                raise TypeError("SymStr: extended slices unsupported")
+            n = z3.Length(self.z)
+            lo = to_z3_int(0 if i.start is None else i.start)
+            hi = n if i.stop is None else to_z3_int(i.stop)
+            lo = z3.If(lo < 0, z3.If(lo + n < 0, 0, lo + n), z3.If(lo > n, n, lo))
+            hi = z3.If(hi < 0, z3.If(hi + n < 0, 0, hi + n), z3.If(hi > n, n, hi))
+            return wrap_str(z3.SubString(self.z, lo, z3.If(hi > lo, hi - lo, 0)))
+        zi = to_z3_int(i)
+        n = z3.Length(self.z)
+        if _c().decide(z3.Or(zi >= n, zi < -n)):
+            raise IndexError("string index out of range")
+        zi = z3.If(zi < 0, zi + n, zi)
+        return wrap_str(z3.SubString(self.z, zi, 1))
+
     def __bool__(self):
         return _c().decide(z3.Length(self.z) > 0)
 
@@ -374,7 +391,104 @@ class SymStr:
 
 def int_to_str(x: SymInt):
     z = x.z
+    # z3's str.from_int over unbounded integers is a solver time sink: when the path condition pins the
+    # value to a handful of possibilities, build the string as an ite over those literals instead.
+    # value to a handful of possibilities, fork over them and return a concrete string.
+    vs = _c().value_set(z, 4)
+    if vs is not None and vs:
+        if all(0 <= v <= 9 for v in vs):
+            return SymChars([z3.simplify(z + 48)])  # one decimal digit: a symbolic character, no string theory
+        return str(_c().concretize_int(z))
     return wrap_str(z3.If(z >= 0, z3.IntToStr(z), z3.Concat(z3.StringVal("-"), z3.IntToStr(-z))))
+
+
+class SymChars:
+    """String of concrete length whose characters are symbolic code points (z3 Int terms or ints)."""
+    __slots__ = ("cells",)
+
+    def __init__(self, cells):
+        self.cells = list(cells)
+
+    @staticmethod
+    def _cells_of(o):
+        if isinstance(o, SymChars):
+            return o.cells
+        if isinstance(o, str):
+            return [ord(ch) for ch in o]
+        return None
+
+    def __len__(self):
+        return len(self.cells)
+
+    def sym_len(self):
+        return len(self.cells)
+
+    def __add__(self, o):
+        c = self._cells_of(o)
+        if c is None:
+            return NotImplemented
+        return _mk_chars(self.cells + c)
+
+    def __radd__(self, o):
+        c = self._cells_of(o)
+        if c is None:
+            return NotImplemented
+        return _mk_chars(c + self.cells)
+
+    def _eqz(self, o):
+        c = self._cells_of(o)
+        if c is None:
+            return None
+        if len(c) != len(self.cells):
+            return z3.BoolVal(False)
+        cs = [(_zi(a) == _zi(b)) for a, b in zip(self.cells, c)]
+        return z3.And(*cs) if cs else z3.BoolVal(True)
+
+    def __eq__(self, o):
+        z = self._eqz(o)
+        return False if z is None else wrap_bool(z)
+
+    def __ne__(self, o):
+        z = self._eqz(o)
+        return True if z is None else wrap_bool(z3.Not(z))
+
+    def __getitem__(self, i):
+        if isinstance(i, slice):
+            return _mk_chars(self.cells[i])
+        if isinstance(i, SymInt):
+            i = i.__index__()
+        return _mk_chars([self.cells[i]])
+
+    def __iter__(self):
+        return iter(_mk_chars([c]) for c in self.cells)
+
+    def __bool__(self):
+        return len(self.cells) > 0
+
+    def concretize(self):
+        return "".join(chr(_c().concretize_int(_zi(c))) for c in self.cells)
+
+    def __hash__(self):
+        return hash(self.concretize())
+
+    def eval_under(self, model):
+        return "".join(chr(model.eval(_zi(c), model_completion=True).as_long()) for c in self.cells)
+
+    def __repr__(self):
+        return f"<symchars {self.cells}>"
+
+    __str__ = __repr__
+
+
+def _zi(c):
+    return c if z3.is_expr(c) else z3.IntVal(c)
+
+
+def _mk_chars(cells):
+    cells = [c.as_long() if (z3.is_expr(c) and z3.is_int_value(c)) else c for c in cells]
+    if all(isinstance(c, int) for c in cells):
+        return "".join(chr(c) for c in cells)
+    return SymChars(cells)
 
 
 class SymEnum:
